@@ -93,6 +93,13 @@ pub fn write(entries: &[(String, Vec<u8>)]) -> Vec<u8> {
 	for (name, data) in entries {
 		// a name of the form "<kind>!<name>" is a member that is not a regular file: dir, symlink, hardlink, fifo
 		if let Some((kind, rest)) = name.split_once('!') {
+			if kind == "rawname" {
+				// a regular file whose name bytes are given in hex (names that are not UTF-8, "./", ...)
+				let nb = crate::util::unhex(rest);
+				put_header(&mut out, &nb, data.len(), b'0');
+				put_data(&mut out, data);
+				continue;
+			}
 			let flag = match kind {
 				"dir" => b'5',
 				"symlink" => b'2',
